@@ -169,7 +169,7 @@ package fastcgi
 //@ define usable(resp *http.Response, err error) bool = (err == nil || err == io.EOF) ==> (resp != nil && 100 <= resp.StatusCode && resp.StatusCode <= 999)
 //@ // writes to a connection do not fail with the read-side sentinel io.EOF (assumed: net.Conn.Write never returns it)
 //@ func (*FCGIClient).Do
-//@   modifies E:uint8
+//@   modifies E:uint8, header.Version, header.Type, header.ID, header.ContentLength, header.PaddingLength
 //@   requires c != nil
 //@   ensures result1 != io.EOF
 //@ // errors made by the library or by errors.New are not the sentinel io.EOF
@@ -185,29 +185,29 @@ package fastcgi
 //@   pure
 //@ func (*FCGIClient).Request
 //@   requires c != nil
-//@   modifies Response.Header, Response.StatusCode, Response.Status, Response.TransferEncoding, Response.ContentLength, Response.Body, E:uint8
+//@   modifies Response.Header, Response.StatusCode, Response.Status, Response.TransferEncoding, Response.ContentLength, Response.Body, E:uint8, header.Version, header.Type, header.ID, header.ContentLength, header.PaddingLength
 //@   ensures [usable_response] usable(resp, err)
 //@ func (*FCGIClient).Get
 //@   requires c != nil && p != nil
 //@   // C13: the request body reaches the responder byte for byte, whatever its length and whether or not the length
 //@   // was announced: the reader handed to Request is the caller's body itself (no wrapper that could cut it short)
 //@   at call (*FCGIClient).Request assert [body_passed_on_untouched] arg2 == body
-//@   modifies Response.Header, Response.StatusCode, Response.Status, Response.TransferEncoding, Response.ContentLength, Response.Body, MV:map[string]string, MD:map[string]string, E:uint8
+//@   modifies Response.Header, Response.StatusCode, Response.Status, Response.TransferEncoding, Response.ContentLength, Response.Body, MV:map[string]string, MD:map[string]string, E:uint8, header.Version, header.Type, header.ID, header.ContentLength, header.PaddingLength
 //@   ensures [usable_response] usable(resp, err)
 //@ func (*FCGIClient).Head
 //@   requires c != nil && p != nil
-//@   modifies Response.Header, Response.StatusCode, Response.Status, Response.TransferEncoding, Response.ContentLength, Response.Body, MV:map[string]string, MD:map[string]string, E:uint8
+//@   modifies Response.Header, Response.StatusCode, Response.Status, Response.TransferEncoding, Response.ContentLength, Response.Body, MV:map[string]string, MD:map[string]string, E:uint8, header.Version, header.Type, header.ID, header.ContentLength, header.PaddingLength
 //@   ensures [usable_response] usable(resp, err)
 //@ func (*FCGIClient).Options
 //@   requires c != nil && p != nil
-//@   modifies Response.Header, Response.StatusCode, Response.Status, Response.TransferEncoding, Response.ContentLength, Response.Body, MV:map[string]string, MD:map[string]string, E:uint8
+//@   modifies Response.Header, Response.StatusCode, Response.Status, Response.TransferEncoding, Response.ContentLength, Response.Body, MV:map[string]string, MD:map[string]string, E:uint8, header.Version, header.Type, header.ID, header.ContentLength, header.PaddingLength
 //@   ensures [usable_response] usable(resp, err)
 //@ func (*FCGIClient).Post
 //@   requires c != nil && p != nil
 //@   // C13: the request body reaches the responder byte for byte, whatever its length and whether or not the length
 //@   // was announced: the reader handed to Request is the caller's body itself (no wrapper that could cut it short)
 //@   at call (*FCGIClient).Request assert [body_passed_on_untouched] arg2 == body
-//@   modifies Response.Header, Response.StatusCode, Response.Status, Response.TransferEncoding, Response.ContentLength, Response.Body, MV:map[string]string, MD:map[string]string, E:uint8
+//@   modifies Response.Header, Response.StatusCode, Response.Status, Response.TransferEncoding, Response.ContentLength, Response.Body, MV:map[string]string, MD:map[string]string, E:uint8, header.Version, header.Type, header.ID, header.ContentLength, header.PaddingLength
 //@   ensures [usable_response] usable(resp, err)
 //@ func writeHeader
 //@   requires w != nil && r != nil && 100 <= r.StatusCode && r.StatusCode <= 999
